@@ -770,12 +770,12 @@ import os as _os
 _SKIP = {"r2-helpers-3", "r2-resolve-2"}
 _SKIP |= {"r4-annotate-2", "r4-find-4", "r4-helpers-3", "r4-resolve-4"}
 _SKIP |= {"r5-annotate-3", "r5-tokenizers-1", "r5-tokenizers-2", "r5-tokenizers-3"}
-_SKIP |= {"r6-annotate-2", "r6-annotate-3", "r6-clean-1", "r6-clean-3", "r6-find-1", "r6-find-3", "r6-helpers-1", "r6-helpers-3", "r6-models-1", "r6-resolve-1", "r6-resolve-3", "r6-tokenizers-2", "r6-tokenizers-3", "r6-utils-1", "r6-utils-3"}
+_SKIP |= {"r6-annotate-2", "r6-annotate-3", "r6-clean-1", "r6-clean-3", "r6-find-3", "r6-helpers-1", "r6-helpers-3", "r6-models-1", "r6-resolve-1", "r6-resolve-3", "r6-tokenizers-2", "r6-tokenizers-3", "r6-utils-1", "r6-utils-3"}
 # r7 = feature / fix commits aimed at the areas of the round-8 rules (none of the new rules fires on them; the reports come from older rules)
-_SKIP |= {"r7-resolve-2", "r7-tokenizers-1", "r7-tokenizers-2", "r7-utils-3", "r7-find-1"}
+_SKIP |= {"r7-resolve-2", "r7-tokenizers-1", "r7-tokenizers-2", "r7-utils-3"}
 # r8 = second batch aimed at the rule areas of rounds 8-9; the reported ones repeat earlier known limits (accumulator, atomic cache write, hit realignment,
 # find/rfind balancer, multi-word markup names, prefix/suffix trimming before difflib, a different trimming algorithm for the full span)
-_SKIP |= {"r8-annotate-2", "r8-find-3", "r8-helpers-2", "r8-resolve-2", "r8-utils-2", "r8-tokenizers-1", "r8-tokenizers-3"}
+_SKIP |= {"r8-annotate-2", "r8-helpers-2", "r8-resolve-2", "r8-utils-2", "r8-tokenizers-1", "r8-tokenizers-3"}
 for _f in sorted(_glob.glob(_os.path.join(_os.path.dirname(_os.path.dirname(__file__)), "benign", "*.diff"))):
     _n = _os.path.basename(_f)[:-5]
     if _n not in _SKIP:
